@@ -151,7 +151,8 @@ func isNameChar(c byte) bool {
 }
 
 // multi-byte characters are literal text like any other, at the top level and inside defaults
-var c07Wide = []string{"é", "ß", "€", "世", "🙂", "\u00a0"}
+// (among them the two letters that case folding maps to ASCII ones, the long s and the Kelvin sign)
+var c07Wide = []string{"é", "ß", "€", "世", "🙂", "\u00a0", "\u017f", "\u212a"}
 
 func genLit(t *rapid.T, nested bool) string {
 	alpha := c07TopAlphabet
